@@ -30,6 +30,7 @@ use zcash_client_backend::data_api::{
     AccountBirthday, AccountPurpose, TransactionStatus, WalletCommitmentTrees, WalletRead, WalletWrite,
 };
 use zcash_client_backend::wallet::{OutputRef, WalletTransparentOutput};
+use zcash_client_sqlite::AccountUuid;
 use zcash_keys::keys::{UnifiedAddressRequest, UnifiedSpendingKey};
 use zcash_primitives::block::BlockHash;
 use zcash_protocol::{consensus::BlockHeight, value::Zatoshis, PoolType, ShieldedPool, TxId};
@@ -57,6 +58,54 @@ enum OpKind {
 }
 
 impl OpKind {
+    /// Compact textual form handed to the crash child.
+    fn encode(&self) -> String {
+        match self {
+            OpKind::Scan { from, limit } => format!("scan:{from}:{limit}"),
+            OpKind::Tip(h) => format!("tip:{h}"),
+            OpKind::Truncate(h) => format!("trunc:{h}"),
+            OpKind::TruncateToChainState(h) => format!("tcs:{h}"),
+            OpKind::RewindToChainState(h) => format!("rcs:{h}"),
+            OpKind::CreateAccount(i) => format!("create:{i}"),
+            OpKind::ImportUfvk(i) => format!("import:{i}"),
+            OpKind::DeleteAccount(i) => format!("delete:{i}"),
+            OpKind::LockOutputs { n, owner, foreign_third } => format!("lock:{n}:{owner}:{}", *foreign_third as u8),
+            OpKind::UnlockOutput { owner } => format!("unlock:{owner}"),
+            OpKind::ClearLocks(i) => format!("clear:{i}"),
+            OpKind::SetTxStatus { mined } => format!("status:{}", *mined as u8),
+            OpKind::PutUtxo { value } => format!("utxo:{value}"),
+            OpKind::ReserveEphemeral(n) => format!("eph:{n}"),
+            OpKind::NextAddress(i) => format!("addr:{i}"),
+            OpKind::SubtreeRoots => "roots".into(),
+            OpKind::PruneQueue => "prune".into(),
+        }
+    }
+
+    fn decode(s: &str) -> OpKind {
+        let p: Vec<&str> = s.split(':').collect();
+        let n = |i: usize| p[i].parse::<u64>().unwrap();
+        match p[0] {
+            "scan" => OpKind::Scan { from: n(1) as u32, limit: n(2) as u32 },
+            "tip" => OpKind::Tip(n(1) as u32),
+            "trunc" => OpKind::Truncate(n(1) as u32),
+            "tcs" => OpKind::TruncateToChainState(n(1) as u32),
+            "rcs" => OpKind::RewindToChainState(n(1) as u32),
+            "create" => OpKind::CreateAccount(n(1) as u8),
+            "import" => OpKind::ImportUfvk(n(1) as u8),
+            "delete" => OpKind::DeleteAccount(n(1) as usize),
+            "lock" => OpKind::LockOutputs { n: n(1) as usize, owner: n(2) as u8, foreign_third: n(3) != 0 },
+            "unlock" => OpKind::UnlockOutput { owner: n(1) as u8 },
+            "clear" => OpKind::ClearLocks(n(1) as usize),
+            "status" => OpKind::SetTxStatus { mined: n(1) != 0 },
+            "utxo" => OpKind::PutUtxo { value: n(1) },
+            "eph" => OpKind::ReserveEphemeral(n(1) as usize),
+            "addr" => OpKind::NextAddress(n(1) as usize),
+            "roots" => OpKind::SubtreeRoots,
+            "prune" => OpKind::PruneQueue,
+            other => panic!("bad op {other}"),
+        }
+    }
+
     fn name(&self) -> &'static str {
         match self {
             OpKind::Scan { .. } => "put_blocks",
@@ -80,13 +129,24 @@ impl OpKind {
     }
 }
 
-struct Scenario {
+/// Everything an operation needs besides the database handle (reconstructible from the seed,
+/// so that a child process can rebuild it without the parent's wallet).
+struct Ctx {
     sim: ChainSim,
-    w: WalletUnderTest,
     /// highest scanned height
     prefix: u32,
-    inj: Injector,
     cfg: HistCfg,
+    accounts: Vec<AccountUuid>,
+    /// height -> block uid of the scanned prefix
+    scanned: BTreeMap<u32, u64>,
+    /// batches in which the prefix is scanned
+    plan: Vec<(u32, u32)>,
+}
+
+struct Scenario {
+    cx: Ctx,
+    w: WalletUnderTest,
+    inj: Injector,
 }
 
 fn pool_type(p: Pool) -> PoolType {
@@ -98,10 +158,10 @@ fn pool_type(p: Pool) -> PoolType {
 }
 
 /// Wallet notes (of scanned blocks) as lockable output references.
-fn wallet_output_refs(sc: &Scenario) -> Vec<OutputRef> {
+fn wallet_output_refs(cx: &Ctx) -> Vec<OutputRef> {
     let mut v = vec![];
-    for (_, uid) in &sc.w.scanned {
-        for tx in &sc.sim.all_blocks[uid].txs {
+    for (_, uid) in &cx.scanned {
+        for tx in &cx.sim.all_blocks[uid].txs {
             for n in &tx.received {
                 v.push(OutputRef::new(TxId::from_bytes(n.key.txid), pool_type(n.key.pool), n.key.out_idx));
             }
@@ -110,8 +170,8 @@ fn wallet_output_refs(sc: &Scenario) -> Vec<OutputRef> {
     v
 }
 
-/// Builds a deterministic scenario: chain generated up-front, a prefix scanned.
-fn make_scenario(seed: u64, idx: u64, file_backed: bool) -> Scenario {
+/// Deterministic chain + scan plan for (seed, idx); no wallet involved.
+fn make_chain(seed: u64, idx: u64, file_backed: bool) -> Ctx {
     let mut rng = vh_common::rng(seed, 2000 + idx);
     let mut cfg = HistCfg::random(&mut rng, false);
     cfg.file_backed = file_backed;
@@ -126,119 +186,143 @@ fn make_scenario(seed: u64, idx: u64, file_backed: bool) -> Scenario {
     for _ in 0..n_blocks {
         sim.mine_random(&pools, 0.5);
     }
-    let mut w = WalletUnderTest::new(&sim, WalletConfig { file_backed, retention: cfg.retention });
-    let tip = sim.tip_height();
-    w.update_chain_tip(tip).expect("tip");
     let prefix = sim.base_height() + rng.gen_range(n_blocks / 2..n_blocks - 6);
+    let mut plan = vec![];
     let mut from = sim.base_height() + 1;
     while from <= prefix {
         let limit = rng.gen_range(1..=12).min(prefix - from + 1);
-        w.scan(&sim, from, limit as usize).expect("prefix scan");
+        plan.push((from, limit));
         from += limit;
     }
-    let inj = Injector::install(w.db.conn()).expect("install injector");
-    Scenario { sim, w, prefix, inj, cfg }
+    let scanned = (sim.base_height() + 1..=prefix).map(|h| (h, sim.blocks[&h].uid)).collect();
+    Ctx { sim, prefix, cfg, accounts: vec![], scanned, plan }
 }
 
-/// Applies `op`; Ok(debug string of the result) or Err(error string).
-fn apply(sc: &mut Scenario, op: &OpKind) -> Result<String, String> {
-    let db = &mut sc.w.db;
-    match op {
+/// Builds a deterministic scenario: chain generated up-front, a prefix scanned.
+fn make_scenario(seed: u64, idx: u64, file_backed: bool) -> Scenario {
+    let mut cx = make_chain(seed, idx, file_backed);
+    let mut w = WalletUnderTest::new(&cx.sim, WalletConfig { file_backed, retention: cx.cfg.retention });
+    let tip = cx.sim.tip_height();
+    w.update_chain_tip(tip).expect("tip");
+    for (from, limit) in cx.plan.clone() {
+        w.scan(&cx.sim, from, limit as usize).expect("prefix scan");
+    }
+    cx.accounts = w.accounts.clone();
+    let inj = Injector::install(w.db.conn()).expect("install injector");
+    Scenario { cx, w, inj }
+}
+
+type ChildDb = zcash_client_sqlite::WalletDb<rusqlite::Connection, zcash_protocol::local_consensus::LocalNetwork, zcash_client_sqlite::util::testing::FixedClock, rand_chacha::ChaChaRng>;
+
+/// Body of `apply`, shared by the two concrete database handle types.
+macro_rules! apply_body {
+    ($db:expr, $cx:expr, $op:expr) => {{
+        let db = $db;
+        let cx: &Ctx = $cx;
+        match $op {
         OpKind::Scan { from, limit } => {
-            let src = vh_wallet::sim::MemBlockSource::new(&sc.sim.blocks);
-            let from_state = sc.sim.state_at(from - 1);
+            let src = vh_wallet::sim::MemBlockSource::new(&cx.sim.blocks);
+            let from_state = cx.sim.state_at(from - 1);
             zcash_client_backend::data_api::chain::scan_cached_blocks(
-                &sc.sim.net, &src, db, BlockHeight::from_u32(*from), &from_state, *limit as usize,
+                &cx.sim.net, &src, db, BlockHeight::from_u32(*from), &from_state, *limit as usize,
             )
             .map(|s| format!("{:?}", s.scanned_range()))
             .map_err(|e| format!("{e:?}"))
         }
         OpKind::Tip(h) => db.update_chain_tip(BlockHeight::from_u32(*h)).map(|_| String::new()).map_err(|e| format!("{e:?}")),
         OpKind::Truncate(h) => db.truncate_to_height(BlockHeight::from_u32(*h)).map(|h| format!("{h:?}")).map_err(|e| format!("{e:?}")),
-        OpKind::TruncateToChainState(h) => db.truncate_to_chain_state(sc.sim.state_at(*h)).map(|_| String::new()).map_err(|e| format!("{e:?}")),
+        OpKind::TruncateToChainState(h) => db.truncate_to_chain_state(cx.sim.state_at(*h)).map(|_| String::new()).map_err(|e| format!("{e:?}")),
         OpKind::RewindToChainState(h) => db
-            .rewind_to_chain_state(sc.sim.state_at(*h), HashSet::new())
+            .rewind_to_chain_state(cx.sim.state_at(*h), HashSet::new())
             .map(|_| String::new())
             .map_err(|e| format!("{e:?}")),
         OpKind::CreateAccount(i) => {
             let seed = Secret::new(vec![0x40 + *i; 32]);
-            let birthday = AccountBirthday::from_parts(sc.sim.base.clone(), None);
+            let birthday = AccountBirthday::from_parts(cx.sim.base.clone(), None);
             db.create_account(&format!("new{i}"), &seed, &birthday, Some("c02")).map(|_| String::new()).map_err(|e| format!("{e:?}"))
         }
         OpKind::ImportUfvk(i) => {
-            let usk = UnifiedSpendingKey::from_seed(&sc.sim.net, &[0x60 + *i; 32], zip32::AccountId::ZERO).unwrap();
+            let usk = UnifiedSpendingKey::from_seed(&cx.sim.net, &[0x60 + *i; 32], zip32::AccountId::ZERO).unwrap();
             let ufvk = usk.to_unified_full_viewing_key();
-            let birthday = AccountBirthday::from_parts(sc.sim.state_at(sc.sim.base_height() + 3), None);
+            let birthday = AccountBirthday::from_parts(cx.sim.state_at(cx.sim.base_height() + 3), None);
             db.import_account_ufvk(&format!("imp{i}"), &ufvk, &birthday, AccountPurpose::ViewOnly, None).map(|_| String::new()).map_err(|e| format!("{e:?}"))
         }
         OpKind::DeleteAccount(i) => {
-            let id = sc.w.accounts[*i];
+            let id = cx.accounts[*i];
             db.delete_account(id).map(|_| String::new()).map_err(|e| format!("{e:?}"))
         }
         OpKind::LockOutputs { n, owner, foreign_third } => {
-            let refs = wallet_output_refs(sc);
-            let db = &mut sc.w.db;
+            let refs = wallet_output_refs(cx);
             if refs.len() < *n + 1 {
                 return Err("not enough notes".into());
             }
-            let expiry = BlockHeight::from_u32(sc.sim.tip_height() + 50);
+            let expiry = BlockHeight::from_u32(cx.sim.tip_height() + 50);
             let _ = foreign_third; // the foreign lock on the 3rd output is part of the state (see `setup`)
             db.lock_outputs(&refs[..*n], LockOwner::new([*owner; 32]), expiry).map(|k| format!("{k}")).map_err(|e| format!("{e:?}"))
         }
         OpKind::UnlockOutput { owner } => {
-            let refs = wallet_output_refs(sc);
-            let db = &mut sc.w.db;
+            let refs = wallet_output_refs(cx);
             let Some(first) = refs.first() else { return Err("no notes".into()) };
             db.unlock_output(first, LockOwner::new([*owner; 32])).map(|b| format!("{b}")).map_err(|e| format!("{e:?}"))
         }
         OpKind::ClearLocks(i) => {
-            let id = sc.w.accounts[*i];
+            let id = cx.accounts[*i];
             db.clear_locked_outputs(id).map(|k| format!("{k}")).map_err(|e| format!("{e:?}"))
         }
         OpKind::SetTxStatus { mined } => {
             // a transaction the wallet knows (first wallet tx of the scanned prefix)
-            let txid = sc.w.scanned.values().flat_map(|uid| sc.sim.all_blocks[uid].txs.iter()).find(|t| !t.received.is_empty()).map(|t| t.txid);
+            let txid = cx.scanned.values().flat_map(|uid| cx.sim.all_blocks[uid].txs.iter()).find(|t| !t.received.is_empty()).map(|t| t.txid);
             let Some(txid) = txid else { return Err("no wallet tx".into()) };
-            let st = if *mined { TransactionStatus::Mined(BlockHeight::from_u32(sc.prefix)) } else { TransactionStatus::NotInMainChain };
+            let st = if *mined { TransactionStatus::Mined(BlockHeight::from_u32(cx.prefix)) } else { TransactionStatus::NotInMainChain };
             db.set_transaction_status(TxId::from_bytes(txid), st).map(|_| String::new()).map_err(|e| format!("{e:?}"))
         }
         OpKind::PutUtxo { value } => {
-            let acct = sc.w.accounts[0];
+            let acct = cx.accounts[0];
             let recv = db.get_transparent_receivers(acct, false, false).map_err(|e| format!("{e:?}"))?;
             let Some((addr, _)) = recv.iter().min_by_key(|(a, _)| format!("{a:?}")) else { return Err("no transparent receiver".into()) };
             let txout = TxOut::new(Zatoshis::from_u64(*value).unwrap(), addr.script().into());
             let op = OutPoint::new([0x77; 32], 1);
-            let Some(out) = WalletTransparentOutput::from_parts(op, txout, Some(BlockHeight::from_u32(sc.prefix)), None, None, None) else {
+            let Some(out) = WalletTransparentOutput::from_parts(op, txout, Some(BlockHeight::from_u32(cx.prefix)), None, None, None) else {
                 return Err("unrecognised script".into());
             };
             db.put_received_transparent_utxo(&out).map(|_| String::new()).map_err(|e| format!("{e:?}"))
         }
         OpKind::ReserveEphemeral(n) => {
-            let acct = sc.w.accounts[0];
+            let acct = cx.accounts[0];
             db.reserve_next_n_ephemeral_addresses(acct, *n).map(|v| format!("{}", v.len())).map_err(|e| format!("{e:?}"))
         }
         OpKind::NextAddress(i) => {
-            let acct = sc.w.accounts[*i];
+            let acct = cx.accounts[*i];
             db.get_next_available_address(acct, UnifiedAddressRequest::AllAvailableKeys).map(|_| String::new()).map_err(|e| format!("{e:?}"))
         }
         OpKind::SubtreeRoots => {
             // A (fake but well-formed) completed-subtree root for index 0 at a height inside the
             // scanned prefix; the wallet stores it as shard-root annotation.
-            let h = BlockHeight::from_u32(sc.sim.base_height() + 2);
-            let root = sapling::Node::from_bytes(sc.sim.root_at(Pool::Sapling, sc.prefix)).unwrap();
+            let h = BlockHeight::from_u32(cx.sim.base_height() + 2);
+            let root = sapling::Node::from_bytes(cx.sim.root_at(Pool::Sapling, cx.prefix)).unwrap();
             db.put_sapling_subtree_roots(0, &[CommitmentTreeRoot::from_parts(h, root)]).map(|_| String::new()).map_err(|e| format!("{e:?}"))
         }
         OpKind::PruneQueue => db
-            .prune_scan_queue_below(BlockHeight::from_u32(sc.prefix - 3), None)
+            .prune_scan_queue_below(BlockHeight::from_u32(cx.prefix - 3), None)
             .map(|n| format!("{n}"))
             .map_err(|e| format!("{e:?}")),
-    }
+        }
+    }};
+}
+
+/// Applies `op`; Ok(debug string of the result) or Err(error string).
+fn apply(sc: &mut Scenario, op: &OpKind) -> Result<String, String> {
+    apply_body!(&mut sc.w.db, &sc.cx, op)
+}
+
+fn apply_child(db: &mut ChildDb, cx: &Ctx, op: &OpKind) -> Result<String, String> {
+    apply_body!(db, cx, op)
 }
 
 /// State preparation that belongs to S, not to the operation under test.
 fn setup(sc: &mut Scenario, op: &OpKind) {
-    let refs = wallet_output_refs(sc);
-    let expiry = BlockHeight::from_u32(sc.sim.tip_height() + 50);
+    let refs = wallet_output_refs(&sc.cx);
+    let expiry = BlockHeight::from_u32(sc.cx.sim.tip_height() + 50);
     match op {
         // the 3rd output is already locked by another owner: the whole batch must fail and leave
         // the first two unlocked
@@ -255,7 +339,7 @@ fn setup(sc: &mut Scenario, op: &OpKind) {
     }
 }
 
-fn candidate_ops(sc: &Scenario, rng: &mut ChaCha20Rng) -> Vec<OpKind> {
+fn candidate_ops(sc: &Ctx, rng: &mut ChaCha20Rng) -> Vec<OpKind> {
     let tip = sc.sim.tip_height();
     let p = sc.prefix;
     let mut ops = vec![
@@ -309,7 +393,7 @@ impl Explorer<'_> {
         if std::env::var("VH_DEBUG").is_ok() {
             eprintln!("VIOLATION {sig}: {detail}");
         }
-        self.r.violation(&sig, detail, json!({"cfg": sc.cfg.to_json(), "prefix": sc.prefix, "op": format!("{op:?}"), "at": extra}));
+        self.r.violation(&sig, detail, json!({"cfg": sc.cx.cfg.to_json(), "prefix": sc.cx.prefix, "op": format!("{op:?}"), "at": extra}));
     }
 
     /// Fault / interrupt enumeration on an in-memory database.
@@ -447,25 +531,375 @@ impl Explorer<'_> {
     }
 }
 
+// ------------------------------------------------------------------------------------------
+// File-backed modes: real crashes in a child process, snapshot probes from a second connection,
+// writer commits interleaved with transactional reads.
+
+/// Child process: rebuild the chain from the seed, open the database file, run `op`, and die
+/// (abort) at the requested point. Exit code 0 = the operation finished without reaching it.
+fn child_main(args: &Args) -> ! {
+    use std::sync::atomic::Ordering;
+    let seed: u64 = args.get_u64("child-seed", 0);
+    let idx: u64 = args.get_u64("child-idx", 0);
+    let path = args.extra.get("child-db").expect("child-db").clone();
+    let op = OpKind::decode(args.extra.get("child-op").expect("child-op"));
+    let crash_step = args.get_u64("crash-step", 0) as i64;
+    let crash_commit = args.get_u64("crash-commit", 0) as i64;
+    let crash_after = args.get_u64("crash-after-op", 0) != 0;
+    let mut cx = make_chain(seed, idx, true);
+    let conn = rusqlite::Connection::open(&path).expect("open db");
+    rusqlite::vtab::array::load_module(&conn).expect("rarray");
+    let ids: Vec<AccountUuid> = {
+        let mut st = conn.prepare("SELECT uuid FROM accounts ORDER BY id").unwrap();
+        st.query_map([], |r| r.get::<_, uuid::Uuid>(0)).unwrap().map(|u| AccountUuid::from_uuid(u.unwrap())).collect()
+    };
+    cx.accounts = ids;
+    let inj = Injector::install(&conn).expect("injector");
+    let clock = zcash_client_sqlite::util::testing::FixedClock::new(std::time::SystemTime::UNIX_EPOCH + std::time::Duration::from_secs(1740441600));
+    let rng = <rand_chacha::ChaChaRng as rand::SeedableRng>::from_seed([7u8; 32]);
+    let mut db: ChildDb = zcash_client_sqlite::WalletDb::from_connection(conn, cx.sim.net, clock, rng);
+    if let Some(n) = cx.cfg.retention {
+        db = db.with_anchor_retention_interval(zcash_client_backend::data_api::anchor_retention::AnchorRetentionInterval::custom(std::num::NonZeroU32::new(n).unwrap()));
+    }
+    inj.reset();
+    if crash_step > 0 {
+        inj.0.crash_at_step.store(true, Ordering::SeqCst);
+        inj.0.arm_step.store(crash_step, Ordering::SeqCst);
+    }
+    if crash_commit > 0 {
+        inj.0.crash_at_commit.store(crash_commit, Ordering::SeqCst);
+    }
+    let res = apply_child(&mut db, &cx, &op);
+    // report what the dry run needs (steps, commits) on stdout
+    println!("CHILD steps={} commits={} ok={}", inj.steps(), inj.commits(), res.is_ok());
+    if crash_after {
+        std::process::abort();
+    }
+    // leave without closing the connection cleanly? No: a clean exit for the dry run.
+    drop(db);
+    std::process::exit(if res.is_ok() { 0 } else { 3 });
+}
+
+fn copy_file_db(src: &std::path::Path, dst: &std::path::Path) {
+    for ext in ["", "-wal", "-shm", "-journal"] {
+        let d = std::path::PathBuf::from(format!("{}{ext}", dst.display()));
+        let _ = std::fs::remove_file(&d);
+        let s = std::path::PathBuf::from(format!("{}{ext}", src.display()));
+        if ext.is_empty() || (ext == "-wal" && s.exists()) {
+            std::fs::copy(&s, &d).expect("copy db file");
+        }
+    }
+}
+
+fn remove_file_db(p: &std::path::Path) {
+    for ext in ["", "-wal", "-shm", "-journal"] {
+        let _ = std::fs::remove_file(format!("{}{ext}", p.display()));
+    }
+}
+
+fn dump_file(path: &std::path::Path) -> Result<Dump, String> {
+    let c = rusqlite::Connection::open(path).map_err(|e| e.to_string())?;
+    dump::dump(&c, false).map_err(|e| e.to_string())
+}
+
+struct ChildOutcome {
+    aborted: bool,
+    exit_ok: bool,
+    steps: i64,
+    commits: i64,
+}
+
+fn run_child(args: &Args, idx: u64, db: &std::path::Path, op: &OpKind, extra: &[(&str, String)]) -> Option<ChildOutcome> {
+    use std::os::unix::process::ExitStatusExt;
+    let exe = std::env::current_exe().ok()?;
+    let mut cmd = std::process::Command::new(exe);
+    cmd.arg("--child").arg("1")
+        .arg("--child-seed").arg(args.shard_seed().to_string())
+        .arg("--child-idx").arg(idx.to_string())
+        .arg("--child-db").arg(db)
+        .arg("--child-op").arg(op.encode())
+        .arg("--out").arg("/dev/null");
+    for (k, v) in extra {
+        cmd.arg(format!("--{k}")).arg(v);
+    }
+    cmd.stderr(std::process::Stdio::null());
+    let out = cmd.output().ok()?;
+    let text = String::from_utf8_lossy(&out.stdout);
+    let mut steps = 0;
+    let mut commits = 0;
+    if let Some(l) = text.lines().find(|l| l.starts_with("CHILD ")) {
+        for kv in l.split_whitespace().skip(1) {
+            if let Some((k, v)) = kv.split_once('=') {
+                match k {
+                    "steps" => steps = v.parse().unwrap_or(0),
+                    "commits" => commits = v.parse().unwrap_or(0),
+                    _ => {}
+                }
+            }
+        }
+    }
+    Some(ChildOutcome { aborted: out.status.signal() == Some(6), exit_ok: out.status.code() == Some(0), steps, commits })
+}
+
+impl Explorer<'_> {
+    /// Real crashes: the operation runs in a child process on a copy of the database file and
+    /// the process aborts at VM step k / inside the commit hook / right after the operation
+    /// returned. After recovery (reopen) the dump must be S or op(S).
+    fn explore_crashes(&mut self, args: &Args, idx: u64, sc: &mut Scenario, op: &OpKind, rng: &mut ChaCha20Rng, n_points: usize, wal: bool) {
+        let name = op.name();
+        let Some(master) = sc.w.db.conn().path().map(std::path::PathBuf::from) else { return };
+        // make the master file self-contained and in the wanted journal mode
+        let mode: String = sc.w.db.conn().query_row(&format!("PRAGMA journal_mode={}", if wal { "WAL" } else { "DELETE" }), [], |r| r.get(0)).unwrap_or_default();
+        if wal {
+            let _ = sc.w.db.conn().execute_batch("PRAGMA wal_checkpoint(TRUNCATE)");
+        }
+        let dump_s = dump::dump(sc.w.db.conn(), false).expect("dump");
+        let dir = master.parent().unwrap().to_path_buf();
+        let scratch = dir.join(format!("c02-crash-{}-{}-{}.sqlite", std::process::id(), idx, rng.r#gen::<u32>()));
+        // dry run in a child
+        copy_file_db(&master, &scratch);
+        let Some(dry) = run_child(args, idx, &scratch, op, &[]) else { self.r.inconclusive("child-spawn-failed"); return };
+        if !dry.exit_ok || dry.steps == 0 {
+            self.r.count("crash_ops_not_applicable", 1);
+            remove_file_db(&scratch);
+            return;
+        }
+        let Ok(dump_1) = dump_file(&scratch) else { self.r.inconclusive("dump-after-child-failed"); remove_file_db(&scratch); return };
+        if dump_1 == dump_s {
+            remove_file_db(&scratch);
+            return;
+        }
+        self.r.count(&format!("crash_op_{name}"), 1);
+        let mut points: Vec<(&str, String)> = vec![("crash-commit", "1".into()), ("crash-after-op", "1".into())];
+        for k in choose(dry.steps, n_points, rng) {
+            points.push(("crash-step", k.to_string()));
+        }
+        for (kind, val) in points {
+            if !self.r.time_left() {
+                break;
+            }
+            copy_file_db(&master, &scratch);
+            let Some(o) = run_child(args, idx, &scratch, op, &[(kind, val.clone())]) else { self.r.inconclusive("child-spawn-failed"); continue };
+            if !o.aborted {
+                self.r.count("crash_point_not_reached", 1);
+                continue;
+            }
+            self.r.count("crash_points_executed", 1);
+            self.r.count(&format!("crash_points_{}_{}", kind.replace('-', "_"), if wal { "wal" } else { "rollback_journal" }), 1);
+            self.r.case(&("crash", name, kind, wal, mode.clone()), true);
+            match dump_file(&scratch) {
+                Err(e) => self.viol(format!("C02:{name}:database-unreadable-after-crash"), e, sc, op, json!({"crash": kind, "at": val, "wal": wal})),
+                Ok(d) => {
+                    let is_s = d == dump_s;
+                    let is_1 = d == dump_1;
+                    if is_s { self.r.count("crash_recovered_to_before", 1) }
+                    if is_1 { self.r.count("crash_recovered_to_after", 1) }
+                    if !is_s && !is_1 {
+                        self.viol(format!("C02:{name}:partial-state-after-crash:{kind}"), format!("journal_mode={mode}; vs S: {}
+vs op(S): {}", dump::diff(&dump_s, &d), dump::diff(&dump_1, &d)), sc, op, json!({"crash": kind, "at": val, "wal": wal}));
+                    }
+                    if kind == "crash-after-op" && !is_1 {
+                        self.viol(format!("C02:{name}:completed-operation-lost-after-crash"), format!("journal_mode={mode}"), sc, op, json!({"crash": kind, "wal": wal}));
+                    }
+                    if kind == "crash-commit" && !is_s && is_1 {
+                        // the commit hook runs before the commit is durable; seeing op(S) would mean an earlier commit
+                        self.viol(format!("C02:{name}:state-visible-before-its-commit"), format!("journal_mode={mode}"), sc, op, json!({"crash": kind, "wal": wal}));
+                    }
+                }
+            }
+        }
+        remove_file_db(&scratch);
+    }
+
+    /// Snapshot probes: while `op` runs on the wallet's connection, a second connection takes a
+    /// complete dump inside ONE read transaction every `every` VM steps of the writer.
+    fn explore_snapshots(&mut self, sc: &mut Scenario, op: &OpKind, every: i64) {
+        let name = op.name();
+        let Some(path) = sc.w.db.conn().path().map(std::path::PathBuf::from) else { return };
+        let dump_s = dump::dump(sc.w.db.conn(), false).expect("dump");
+        let reader = rusqlite::Connection::open(&path).expect("second connection");
+        let _ = reader.busy_timeout(std::time::Duration::from_millis(0));
+        let seen: Arc<Mutex<Vec<Result<Dump, String>>>> = Arc::new(Mutex::new(vec![]));
+        let seen2 = seen.clone();
+        sc.inj.reset();
+        sc.inj.set_probe(every, Box::new(move |_n| {
+            let r = (|| -> Result<Dump, String> {
+                reader.execute_batch("BEGIN").map_err(|e| e.to_string())?;
+                let d = dump::dump(&reader, false).map_err(|e| e.to_string());
+                let _ = reader.execute_batch("COMMIT");
+                d
+            })();
+            seen2.lock().unwrap().push(r);
+        }));
+        let res = guard(|| apply(sc, op));
+        sc.inj.clear_probe();
+        sc.inj.reset();
+        let dump_1 = dump::dump(sc.w.db.conn(), false).expect("dump");
+        if !matches!(res, Ok(Ok(_))) {
+            self.r.count("snapshot_ops_not_applicable", 1);
+            return;
+        }
+        self.r.count(&format!("snapshot_op_{name}"), 1);
+        let probes = std::mem::take(&mut *seen.lock().unwrap());
+        let (mut before, mut after) = (0u64, 0u64);
+        for p in probes {
+            match p {
+                Err(_) => self.r.count("snapshot_probes_busy", 1),
+                Ok(d) => {
+                    self.r.count("snapshot_probes", 1);
+                    if d == dump_s { before += 1 } else if d == dump_1 { after += 1 } else {
+                        self.viol(format!("C02:{name}:half-applied-state-visible-to-second-connection"), format!("vs S: {}
+vs op(S): {}", dump::diff(&dump_s, &d), dump::diff(&dump_1, &d)), sc, op, json!({"every": every}));
+                    }
+                }
+            }
+        }
+        self.r.count("snapshot_probes_saw_before", before);
+        self.r.count("snapshot_probes_saw_after", after);
+        self.r.case(&("snapshot", name, before > 0, after > 0), true);
+    }
+
+    /// Writer commit interleaved with a transactional multi-statement read: `get_wallet_summary`
+    /// runs on the wallet's connection; at its k-th VM step a complete write operation runs (and
+    /// commits) on a second wallet handle. The read must equal read(S) or read(op(S)).
+    fn explore_reader_writer(&mut self, args: &Args, idx: u64, sc: &mut Scenario, op: &OpKind, rng: &mut ChaCha20Rng, n_points: usize, wal: bool) {
+        let name = op.name();
+        let Some(master) = sc.w.db.conn().path().map(std::path::PathBuf::from) else { return };
+        let _: String = sc.w.db.conn().query_row(&format!("PRAGMA journal_mode={}", if wal { "WAL" } else { "DELETE" }), [], |r| r.get(0)).unwrap_or_default();
+        let read = |sc: &Scenario| -> String {
+            format!("{:?}", sc.w.db.get_wallet_summary(ConfirmationsPolicy::MIN).map(|s| s.map(|s| {
+                let mut v: Vec<String> = s.account_balances().iter().map(|(k, b)| format!("{k:?}={b:?}")).collect();
+                v.sort();
+                (v, s.chain_tip_height(), s.fully_scanned_height())
+            })))
+        };
+        // read(S), steps of the read
+        sc.inj.reset();
+        let read_s = read(sc);
+        let v_read = sc.inj.steps();
+        // read(op(S)) from a scratch copy, via a child-free path: apply on a copy through a second handle
+        let dir = master.parent().unwrap().to_path_buf();
+        let scratch = dir.join(format!("c02-rw-{}-{}-{}.sqlite", std::process::id(), idx, rng.r#gen::<u32>()));
+        if wal { let _ = sc.w.db.conn().execute_batch("PRAGMA wal_checkpoint(TRUNCATE)"); }
+        let open_writer = |p: &std::path::Path, cx: &Ctx| -> ChildDb {
+            let conn = rusqlite::Connection::open(p).expect("open");
+            rusqlite::vtab::array::load_module(&conn).expect("rarray");
+            let _ = conn.busy_timeout(std::time::Duration::from_millis(0));
+            let clock = zcash_client_sqlite::util::testing::FixedClock::new(std::time::SystemTime::UNIX_EPOCH + std::time::Duration::from_secs(1740441600));
+            let rng = <rand_chacha::ChaChaRng as rand::SeedableRng>::from_seed([7u8; 32]);
+            let mut db: ChildDb = zcash_client_sqlite::WalletDb::from_connection(conn, cx.sim.net, clock, rng);
+            if let Some(n) = cx.cfg.retention {
+                db = db.with_anchor_retention_interval(zcash_client_backend::data_api::anchor_retention::AnchorRetentionInterval::custom(std::num::NonZeroU32::new(n).unwrap()));
+            }
+            db
+        };
+        copy_file_db(&master, &scratch);
+        let read_1 = {
+            let mut wdb = open_writer(&scratch, &sc.cx);
+            if apply_child(&mut wdb, &sc.cx, op).is_err() {
+                self.r.count("reader_writer_ops_not_applicable", 1);
+                drop(wdb);
+                remove_file_db(&scratch);
+                return;
+            }
+            format!("{:?}", wdb.get_wallet_summary(ConfirmationsPolicy::MIN).map(|s| s.map(|s| {
+                let mut v: Vec<String> = s.account_balances().iter().map(|(k, b)| format!("{k:?}={b:?}")).collect();
+                v.sort();
+                (v, s.chain_tip_height(), s.fully_scanned_height())
+            })))
+        };
+        remove_file_db(&scratch);
+        if read_1 == read_s {
+            self.r.count("reader_writer_ops_invisible_to_read", 1);
+        }
+        self.r.count(&format!("reader_writer_op_{name}"), 1);
+        // Each point needs a pristine master: keep a copy to restore from.
+        let pristine = dir.join(format!("c02-rw-master-{}-{}.sqlite", std::process::id(), idx));
+        copy_file_db(&master, &pristine);
+        for k in choose(v_read.max(1), n_points, rng) {
+            if !self.r.time_left() {
+                break;
+            }
+            // the writer is a second handle on the SAME file
+            let cx_ptr: *const Ctx = &sc.cx;
+            let op2 = op.clone();
+            let master2 = master.clone();
+            let outcome: Arc<Mutex<Option<Result<String, String>>>> = Arc::new(Mutex::new(None));
+            let outcome2 = outcome.clone();
+            let open_writer2 = open_writer;
+            sc.inj.reset();
+            // SAFETY: the probe runs synchronously inside `read(sc)` below, on this thread, while
+            // `sc.cx` is alive and not mutated.
+            let cx_addr = cx_ptr as usize;
+            let mut done = false;
+            sc.inj.set_probe(1, Box::new(move |n| {
+                if n == k && !done {
+                    done = true;
+                    let cx: &Ctx = unsafe { &*(cx_addr as *const Ctx) };
+                    let mut wdb = open_writer2(&master2, cx);
+                    let r = apply_child(&mut wdb, cx, &op2);
+                    *outcome2.lock().unwrap() = Some(r);
+                }
+            }));
+            let got = read(sc);
+            sc.inj.clear_probe();
+            sc.inj.reset();
+            let wrote = outcome.lock().unwrap().take();
+            match wrote {
+                None => self.r.count("reader_writer_point_not_reached", 1),
+                Some(Err(e)) => {
+                    // typically SQLITE_BUSY in rollback-journal mode while the reader holds its snapshot
+                    self.r.count(if e.contains("Busy") || e.contains("locked") { "reader_writer_writer_busy" } else { "reader_writer_writer_failed" }, 1);
+                    if got != read_s {
+                        self.viol(format!("C02:{name}:read-changed-although-writer-failed"), format!("writer error {e}"), sc, op, json!({"k": k, "wal": wal}));
+                    }
+                }
+                Some(Ok(_)) => {
+                    self.r.count("reader_writer_interleavings", 1);
+                    self.r.case(&("reader-writer", name, wal, got == read_s), true);
+                    if got == read_s { self.r.count("reader_saw_before", 1) } else if got == read_1 { self.r.count("reader_saw_after", 1) } else {
+                        self.viol(format!("C02:{name}:transactional-read-saw-mixed-state"), format!("writer committed at reader step {k}/{v_read}
+read   = {got}
+read(S)= {read_s}
+read(op(S)) = {read_1}").chars().take(1800).collect(), sc, op, json!({"k": k, "wal": wal}));
+                    }
+                }
+            }
+            // restore the master file for the next point (the wallet connection stays open: in
+            // rollback mode it re-reads the file; use the backup API through a scratch connection)
+            let src = rusqlite::Connection::open(&pristine).expect("open pristine");
+            if copy_db(&src, sc.w.db.conn_mut()).is_err() {
+                sc.w.db.conn_mut().flush_prepared_statement_cache();
+                let _ = copy_db(&src, sc.w.db.conn_mut());
+            }
+        }
+        remove_file_db(&pristine);
+        let _ = args;
+    }
+}
+
 fn main() {
     vh_common::install_panic_hook();
     let args = Args::parse();
+    if args.get_u64("child", 0) != 0 {
+        child_main(&args);
+    }
     let mut r = Reporter::new("C02", &args);
     let thorough = args.tier == Tier::Thorough;
     let n_scen = args.pick(3u64, 40u64);
     let only_op = args.extra.get("only-op").cloned();
     for si in 0..n_scen {
-        if !r.time_left() {
+        if !r.time_left() || r.frac_left() < 0.42 {
             break;
         }
         let seed = args.shard_seed();
         let mut rng = vh_common::rng(seed, 7000 + si);
         let mut sc = make_scenario(seed, si, false);
         r.count("scenarios", 1);
-        let ops = candidate_ops(&sc, &mut rng);
+        let ops = candidate_ops(&sc.cx, &mut rng);
         let mut ex = Explorer { r: &mut r, cap_sites: if thorough { 400 } else { 45 }, cap_steps: if thorough { 300 } else { 30 } };
         for op in ops {
-            if !ex.r.time_left() {
+            if !ex.r.time_left() || ex.r.frac_left() < 0.42 {
                 break;
             }
             if let Some(o) = &only_op {
@@ -476,6 +910,34 @@ fn main() {
             ex.explore(&mut sc, &op, &mut rng);
         }
     }
-    let _: Option<(BTreeMap<u8, u8>, Arc<Mutex<u8>>, Dump, ConfirmationsPolicy)> = None;
+    // ---- file-backed scenarios: crashes, snapshot probes, reader/writer interleavings
+    let n_file = args.pick(1u64, 12u64);
+    for fi in 0..n_file {
+        if !r.time_left() {
+            break;
+        }
+        let idx = 500 + fi;
+        let seed = args.shard_seed();
+        let mut rng = vh_common::rng(seed, 9000 + fi);
+        let mut sc = make_scenario(seed, idx, true);
+        r.count("file_backed_scenarios", 1);
+        let ops = candidate_ops(&sc.cx, &mut rng);
+        let wal = (args.shard + fi) % 2 == 0;
+        let mut ex = Explorer { r: &mut r, cap_sites: 0, cap_steps: 0 };
+        let (n_crash, n_rw, n_ops) = if thorough { (10, 12, 8) } else { (3, 4, 3) };
+        for op in ops.iter().filter(|o| only_op.as_deref().map_or(true, |n| o.name() == n)).take(n_ops) {
+            if !ex.r.time_left() {
+                break;
+            }
+            ex.explore_crashes(&args, idx, &mut sc, op, &mut rng, n_crash, wal);
+            ex.explore_reader_writer(&args, idx, &mut sc, op, &mut rng, n_rw, wal);
+            // snapshot probes change the master (the operation really runs), so do them last and
+            // rebuild the scenario afterwards
+            let v = 60;
+            ex.explore_snapshots(&mut sc, op, v);
+            sc = make_scenario(seed, idx, true);
+        }
+    }
+    let _: Option<BTreeMap<u8, u8>> = None;
     r.finish();
 }
